@@ -97,7 +97,28 @@ def run_case(desc):
             ok, s2 = call(mg.to_scaled, cell.copy(), c1.copy())
             if ok and np.abs(s2 - frac).max() > 1e-10 * cond * max(1.0, np.abs(frac).max()) + 1e-9:
                 out.fail("roundtrip-scaled", "to_scaled(to_cartesian(s)) differs from s by %.3g" % np.abs(s2 - frac).max())
-        ok, sw = call(mg.to_scaled, cell.copy(), pos.copy(), True, pbc.copy())
+        # the periodicity flags in the spellings ASE accepts (MatID's expand_pbc passes a sequence through unchanged)
+        from vlib.case import dhash
+        form = ["bool-array", "bool-list", "int-list", "int-tuple", "int-array", "scalar"][int(dhash(desc), 16) % 6]
+        if form == "scalar" and not (pbc.all() or not pbc.any()):
+            form = "bool-tuple"
+
+        def flags():
+            if form == "bool-array":
+                return pbc.copy()
+            if form == "bool-list":
+                return [bool(x) for x in pbc]
+            if form == "bool-tuple":
+                return tuple(bool(x) for x in pbc)
+            if form == "int-list":
+                return [int(x) for x in pbc]
+            if form == "int-tuple":
+                return tuple(int(x) for x in pbc)
+            if form == "int-array":
+                return pbc.astype(int)
+            return bool(pbc.all())
+        out.cls("pbc-flags=" + form)
+        ok, sw = call(mg.to_scaled, cell.copy(), pos.copy(), True, flags())
         if not ok:
             fail_exc("to_scaled-wrap", sw)
         else:
@@ -107,8 +128,8 @@ def run_case(desc):
             if np.abs(d[:, pbc] - np.rint(d[:, pbc])).max(initial=0.0) > 1e-9 * max(1.0, np.abs(s).max()):
                 out.fail("wrap-integer", "wrapping changed a periodic component by a non-integer")
             if (sw[:, pbc] < 0).any() or (sw[:, pbc] > 1).any():
-                out.fail("wrap-range", "wrapped periodic component outside [0,1]")
-        ok, cw = call(mg.to_cartesian, cell.copy(), frac.copy(), True, pbc.copy())
+                out.fail("wrap-range", "wrapped periodic component outside [0,1] (pbc flags given as %s)" % form)
+        ok, cw = call(mg.to_cartesian, cell.copy(), frac.copy(), True, flags())
         if not ok:
             fail_exc("to_cartesian-wrap", cw)
         else:
@@ -116,6 +137,10 @@ def run_case(desc):
             if np.abs(k[:, ~pbc]).max(initial=0.0) > 1e-10 * cond * max(1.0, np.abs(frac).max()) + 1e-9 or \
                     np.abs(k[:, pbc] - np.rint(k[:, pbc])).max(initial=0.0) > 1e-10 * cond * max(1.0, np.abs(frac).max()) + 1e-9:
                 out.fail("wrap-integer", "to_cartesian(wrap) moved an atom by a non-lattice vector")
+            fw = frac + k
+            eps = 1e-10 * cond * max(1.0, np.abs(frac).max()) + 1e-9
+            if (fw[:, pbc] < -eps).any() or (fw[:, pbc] > 1 + eps).any():
+                out.fail("wrap-range", "to_cartesian(wrap) left a periodic component outside [0,1] (pbc flags given as %s)" % form)
 
     # ---- get_minimized_cell ---------------------------------------------------------------------------------
     axis = int(desc["axis"]); ms = float(desc["min_size"])
